@@ -251,8 +251,8 @@ def _gen_op(rng, at, knobs, live, ops=None, slots=None):
             o.pop("obs", None)
             return o
     if ops and rng.random() < knobs.get("variant_rate", 0.0):
-        cands = [i for i, o in enumerate(ops) if o["op"] in W.URLISH_OPS and o["op"] not in ("pickle", "copy", "deepcopy", "reduce", "legacy_setstate", "origin", "relative", "parent")]
-        v = W.gen_variant(rng, ops, cands)
+        cands = [i for i, o in enumerate(ops) if o["op"] in W.URLISH_OPS and o["op"] not in ("pickle", "copy", "deepcopy", "reduce", "legacy_setstate", "deepcopy_in", "pickle_in", "copy_in", "origin", "relative", "parent")]
+        v = W.gen_variant(rng, ops, cands, slots)
         if v is not None:
             return v
     containers = [i for i, x in enumerate(slots or []) if x is not None and not W.is_url(x)]
@@ -269,9 +269,9 @@ def _gen_op(rng, at, knobs, live, ops=None, slots=None):
     elif r < 0.62 + sr * 0.3:
         op = W.gen_derivation(rng, at, live)
     elif r < 0.68 + sr * 0.3:
-        op = W.gen_restart(rng, live)
+        op = W.gen_restart(rng, live, slots)
     else:
-        op = W.gen_read(rng, live)
+        op = W.gen_read(rng, live, slots)
     if op["op"] in W.URLISH_OPS and rng.random() < knobs["deep_rate"]:
         order = list(W.ALL_READS)
         rng.shuffle(order)
